@@ -72,6 +72,8 @@ pub struct Labels {
     pub internal_def_forward: u32,
     pub let_over_lambda: u32,
     pub closure_per_round: u32,
+    pub redefinitions: u32,
+    pub builtin_shadowed: u32,
     pub one_armed_if: u32,
     pub tail_statements: u32,
     pub applies: u32,
@@ -999,7 +1001,76 @@ impl<'a, 'b> Gen<'a, 'b> {
         let n = 1 + self.ch.below(self.cfg.max_forms);
         let depth = self.cfg.max_depth;
         for _ in 0..n {
-            match self.ch.weighted(&[3, 4, 2, 6, 1]) {
+            match self.ch.weighted(&[3, 4, 2, 6, 1, 1, 1]) {
+                5 => {
+                    // a top-level name defined twice with values that are alike but not the same: two closures of
+                    // one lambda over different bindings, or 1 and 1.0
+                    let k = forms.len();
+                    let (mk, nm) = (format!("mk-add{}", k), format!("redef{}", k));
+                    let (a, b) = (self.ch.range(0, 9) as i32, self.ch.range(10, 19) as i32);
+                    if self.ch.chance(2, 3) {
+                        forms.push(Form::Define(Def {
+                            name: mk.clone(),
+                            value: Expr::Lambda(
+                                Formals { fixed: vec!["n".into()], rest: None },
+                                body1(Expr::Lambda(Formals { fixed: vec!["x".into()], rest: None }, body1(app("+", vec![var("x"), var("n")])))),
+                            ),
+                            sugar: self.ch.chance(1, 2),
+                        }));
+                        forms.push(Form::Define(Def { name: nm.clone(), value: app(&mk, vec![Expr::Int(a)]), sugar: false }));
+                        forms.push(Form::Expr(app(&nm, vec![Expr::Int(100)])));
+                        forms.push(Form::Define(Def { name: nm.clone(), value: app(&mk, vec![Expr::Int(b)]), sugar: false }));
+                        forms.push(Form::Expr(app(&nm, vec![Expr::Int(100)])));
+                    } else {
+                        forms.push(Form::Define(Def { name: nm.clone(), value: Expr::Int(a), sugar: false }));
+                        forms.push(Form::Expr(var(&nm)));
+                        forms.push(Form::Define(Def { name: nm.clone(), value: Expr::Real(format!("{}.0", a)), sugar: false }));
+                        forms.push(Form::Expr(var(&nm)));
+                    }
+                    self.labels.redefinitions += 1;
+                }
+                6 => {
+                    // a builtin's name bound by a parameter, an internal definition or a top-level definition of the
+                    // program: the innermost binding is the one that is called
+                    let k = forms.len();
+                    let nm = format!("shadow{}", k);
+                    let (bname, own): (&str, Expr) = match self.ch.below(3) {
+                        0 => ("not", Expr::Lambda(Formals { fixed: vec!["v".into()], rest: None }, body1(var("v")))),
+                        1 => ("car", Expr::Lambda(Formals { fixed: vec!["v".into()], rest: None }, body1(Expr::Quote(Datum::Sym("own-car".into()))))),
+                        _ => ("null?", Expr::Lambda(Formals { fixed: vec!["v".into()], rest: None }, body1(Expr::Bool(true)))),
+                    };
+                    let arg = Expr::Quote(Datum::List(vec![Datum::Int(1), Datum::Int(2)], None));
+                    let test = app(bname, vec![arg.clone()]);
+                    let body = Expr::If(Box::new(test.clone()), Box::new(app("list", vec![Expr::Quote(Datum::Sym("yes".into())), test.clone()])), Some(Box::new(Expr::Quote(Datum::Sym("no".into())))));
+                    match self.ch.below(3) {
+                        0 => {
+                            // as a parameter
+                            forms.push(Form::Define(Def {
+                                name: nm.clone(),
+                                value: Expr::Lambda(Formals { fixed: vec![bname.to_string()], rest: None }, body1(body)),
+                                sugar: self.ch.chance(1, 2),
+                            }));
+                            forms.push(Form::Expr(app(&nm, vec![own])));
+                        }
+                        1 => {
+                            // as an internal definition
+                            forms.push(Form::Define(Def {
+                                name: nm.clone(),
+                                value: Expr::Lambda(
+                                    Formals { fixed: vec![], rest: None },
+                                    Box::new(Body { defs: vec![Def { name: bname.to_string(), value: own, sugar: false }], exprs: vec![body] }),
+                                ),
+                                sugar: true,
+                            }));
+                            forms.push(Form::Expr(app(&nm, vec![])));
+                        }
+                        _ => {
+                            // in a let
+                            forms.push(Form::Expr(Expr::App(Box::new(Expr::Lambda(Formals { fixed: vec![bname.to_string()], rest: None }, body1(body))), vec![own])));
+                        }
+                    }
+                    self.labels.builtin_shadowed += 1;
+                }
                 4 => {
                     // a self tail call that collects one closure per round; each closure must keep the bindings of
                     // its own round: (define (c n acc) (if (<= n 0) acc (c (- n 1) (cons (lambda ...) acc))))
